@@ -49,6 +49,36 @@ NOTES = {
     'C10-s2': ("generator-based error scan in AND/OR misses an error after the deciding element", "caught"),
     'C10-s3': ("IF truncates the condition with int(): 0.5 is false", "caught"),
     'C10-s4': ("eval_cell pre-checks the static references of a precedent (guarded back-reference)", "missed: poison was only ever in the evaluated cell; C10 gained the precedent =IF(FALSE,<evaluated cell>,5)"),
+    # ---- wave 6a (third seeds, three per property) ----
+    'C01-s5': ("negated literal memoised on the AST node: the second evaluation of the same compiled model reuses it", "missed: every case compiled afresh; C01 gained a second assignment on the same compiled model"),
+    'C01-s6': ("'<>' written as NOT('='): an error operand of <> becomes a boolean", "caught"),
+    'C01-s7': ("divisor 'zero to machine precision' (|x|<1e-15) raises #DIV/0!", "missed: no tiny operands; C01 gained the vector (2e-17,3,4e-17,5,8e-17,2)"),
+    'C02-s5': ("sign after a sub-expression's ')' taken for a unary sign", "caught"),
+    'C02-s6': ("numeric constants with a signed exponent become references", "caught"),
+    'C02-s7': ("'^' made right-associative", "caught"),
+    'C03-s5': ("resolve_ranges iterates the column set unsorted (order differs beyond a few columns)", "missed: rectangles never exceeded column D; C03 gained the shapes family (columns to K)"),
+    'C03-s6': ("XLFormula de-duplicates its terms by coordinates, forgetting the sheet", "missed: no formula named the same rectangle on two sheets; shapes family"),
+    'C03-s7': ("blank-run cut-off of RangeNode.eval counts 0 and FALSE as empty", "missed: no long runs of zeros; shapes family"),
+    'C04-s5': ("set through a defined name writes to the name's own cell object", "missed: only evaluators set cells; C04 now alternates Evaluator.set_cell_value / Model.set_cell_value and addresses / names"),
+    'C04-s6': ("formulas with the same text share one AST whose references remember their sheet", "missed: no model had equal formula texts on two sheets; crosssheet model now has"),
+    'C04-s7': ("evaluator's stack of cells in evaluation not unwound when an evaluation fails", "missed: no history contained a failing evaluation; C04 gained the raising-guard model"),
+    'C05-s5': ("evaluator-level memo of precedent results, cleared only by the evaluator's own set_cell_value", "missed by C05 (caught by C04): C05 gained the handover family (input changed by the other evaluator / on the model between two evaluators' turns)"),
+    'C05-s6': ("process-wide memo of compiled COUNTIF/SUMIF criteria keyed by the criterion's text", "missed: no criteria functions in the models; criteria model + fresh-process family"),
+    'C05-s7': ("lru_cache on the bound method Evaluator.resolve_names pins every evaluator", "caught (heap schedules)"),
+    'C06-s5': ("path of visited cells kept as text and searched with 'in' (Sales!B2 inside NetSales!B2)", "missed: all graphs lived on Sheet1!B1..B4; C06 gained placements whose addresses are tails/heads of one another"),
+    'C06-s6': ("a range is completed after one of its cells failed: failing ladders take 2^depth", "missed: failure chains had one path; C06 gained ladders (two cells per level, each summing the level below)"),
+    'C06-s7': ("lazily evaluated arguments get a context that forgets the path: cycles through IF/AND recurse", "missed: references were always direct operands; C06 gained the lazy-branch / lazy-and / lazy-else renderings of every graph"),
+    'C07-s5': ("error check for variadic arguments folded into the conversion pass", "caught"),
+    'C07-s6': ("'<>' as the negation of '=' swallows error operands", "caught"),
+    'C07-s7': ("ISBLANK decided by truthiness", "caught"),
+    'C08-s5': ("numeric-text guard that forgets the '.5' form", "missed: one decimal spelling per number; C08 gained '.5', '5.' and '+5' spellings"),
+    'C08-s6': ("memoised scalar conversions confuse 1 / 1.0 / True", "caught - as a history-dependent failure, which the runner first reported as a harness error; the runner now confirms such failures by replaying the shard"),
+    'C08-s7': ("a constant cell holding the empty text is handed to formulas as a blank", "missed: the empty text was always the result of =\"\"; C08 now stores '' in a constant cell (set_cell_value after compile)"),
+    'C09-s5': ("numeric-looking texts sort 'naturally' among themselves", "missed: '1' < '10' holds either way; C09 gained the texts '9' and '1A'"),
+    'C09-s6': ("ordering operators compare raw values when both operands have one type", "caught"),
+    'C09-s7': ("literal operands memoised by their spelling only", "caught (history-dependent, see C08-s6)"),
+    'C10-s6': ("cells under evaluation kept in a set that an aborted evaluation does not clear", "missed: every case had a fresh evaluator; C10 gained the FLIP family (truth assignments changed on one evaluator, poisoned ones included)"),
+    'C10-s7': ("an entirely empty range argument makes AND/OR #VALUE!", "caught"),
     'C11-s1': ("boolean constants loaded as floats", "caught"),
     'C11-s2': ("one XLFormula reused per formula text across sheets", "missed: equal formula texts only referenced single cells; every sheet now carries =SUM(A1:A2)"),
     'C12-s1': ("ExcelError passes (value, info) to Exception: restored errors cannot be rebuilt", "caught"),
